@@ -552,3 +552,87 @@ Proof. exact ProofsCdf3.categorical_cdf_partial_sums. Qed.
 Theorem categorical_cdf_monotone :
   forall (theta : list R) (k0 : nat) (x y : R), List.Forall (fun t : R => 0 <= t) theta -> x <= y -> psum_from k0 theta x <= psum_from k0 theta y.
 Proof. exact ProofsCdf3.psum_from_mono. Qed.
+
+(* ---- round 5: parameter layout of mixtures / products (MixParam.v).  T = entries of a parameter vector,
+   C = any component type with its GetParameters / SetParameters; K = length cs and the per-component
+   parameter counts length (get c) are arbitrary. ---- *)
+From ADV Require C14.MixParam C14.ProofsMixParam C14.CorrP.
+Import MixParam.
+Open Scope nat_scope.
+
+(* the component loop of Mixture.SetParameters hands component i exactly the i-th window, whatever K and the window lengths *)
+Theorem mixture_loop_windows :
+  forall (T C : Type) (get : C -> list T) (set : C -> list T -> sres C) (cs : list C) (qs : list (list T)) (extra : list T), Forall2 (fun c q => length (get c) = length q) cs qs -> mix_loop T C get set cs (length cs) (concat qs ++ extra) = seq_set T C set cs qs.
+Proof. exact ProofsMixParam.mix_loop_windows. Qed.
+
+(* Mixture.SetParameters(log-weights ++ window_0 ++ ... ++ window_{K-1} ++ extra) *)
+Theorem mixture_set_windows :
+  forall (T C : Type) (get : C -> list T) (set : C -> list T -> sres C) (lw : list T) (cs : list C) (w : list T) (qs : list (list T)) (extra : list T), length w = length lw -> length lw = length cs -> Forall2 (fun c q => length (get c) = length q) cs qs -> mix_set T C get set lw cs (w ++ concat qs ++ extra) = (if 0 <? length (concat qs ++ extra) then smap (fun cs' : list C => (w, cs')) (seq_set T C set cs qs) else SOk (w, cs)).
+Proof. exact ProofsMixParam.mix_set_windows. Qed.
+
+Theorem mixture_get_layout :
+  forall (T C : Type) (get : C -> list T) (lw : list T) (cs : list C), length lw = length cs -> mix_get T C get lw cs = lw ++ concat (map get cs).
+Proof. exact ProofsMixParam.mix_get_layout. Qed.
+
+(* all windows accepted: component i becomes d_i *)
+Theorem mixture_windows_all_accepted :
+  forall (T C : Type) (get : C -> list T) (set : C -> list T -> sres C) (cs ds : list C), Forall2 (fun c d : C => set c (get d) = SOk d) cs ds -> seq_set T C set cs (map get ds) = SOk ds.
+Proof. exact ProofsMixParam.seq_set_ok. Qed.
+
+(* first refused window at position i: an error, the components before i hold their new parameters, i and the later ones are untouched *)
+Theorem mixture_first_refused_window :
+  forall (T C : Type) (get : C -> list T) (set : C -> list T -> sres C) (cs1 ds1 : list C) (c c' : C) (cs2 : list C) (q : list T) (qs2 : list (list T)), Forall2 (fun c0 d : C => set c0 (get d) = SOk d) cs1 ds1 -> set c q = SErr c' -> seq_set T C set (cs1 ++ c :: cs2) (map get ds1 ++ q :: qs2) = SErr (ds1 ++ c' :: cs2).
+Proof. exact ProofsMixParam.seq_set_fail. Qed.
+
+(* a cursor that runs out of entries panics (Slice beyond the length) *)
+Theorem mixture_short_vector_panics :
+  forall (T C : Type) (get : C -> list T) (set : C -> list T -> sres C) (c : C) (tl : list C) (k : nat) (rest : list T), length rest < length (get c) -> mix_loop T C get set (c :: tl) (S k) rest = SPanic (c :: tl).
+Proof. exact ProofsMixParam.mix_loop_short. Qed.
+
+(* ScalarId / VectorId: same windows; entries left over are an error AFTER every component has been updated *)
+Theorem product_set_windows :
+  forall (T C : Type) (get : C -> list T) (set : C -> list T -> sres C) (cs : list C) (qs : list (list T)) (extra : list T), Forall2 (fun c q => length (get c) = length q) cs qs -> prod_loop T C get set cs (concat qs ++ extra) = match seq_set T C set cs qs with SOk cs' => if 0 <? length extra then SErr cs' else SOk cs' | SErr c => SErr c | SPanic c => SPanic c end.
+Proof. exact ProofsMixParam.prod_loop_windows. Qed.
+
+(* finite nestings of leaves, i.i.d. wrappers, products and mixtures: SetParameters(GetParameters() of ANY well-formed
+   distribution u of the same shape) makes the object equal to u — every leaf at every depth receives its own window *)
+Theorem composite_set_window :
+  forall (T F : Type) (arity : F -> nat) (guard : F -> list T -> bool), (forall f : F, 0 < arity f) -> forall t u : ptree T F, same_shape T F t u -> tree_wf T F arity guard u -> tree_set T F arity guard t (tree_get T F u) = SOk u.
+Proof. exact ProofsMixParam.tree_set_window. Qed.
+
+Theorem composite_roundtrip :
+  forall (T F : Type) (arity : F -> nat) (guard : F -> list T -> bool), (forall f : F, 0 < arity f) -> forall t : ptree T F, tree_wf T F arity guard t -> tree_set T F arity guard t (tree_get T F t) = SOk t.
+Proof. exact ProofsMixParam.tree_roundtrip. Qed.
+
+(* ... so every observable of the state, the log-density in particular, is what it was *)
+Theorem composite_roundtrip_observable :
+  forall (T F : Type) (arity : F -> nat) (guard : F -> list T -> bool), (forall f : F, 0 < arity f) -> forall (A : Type) (obs : ptree T F -> A) (t : ptree T F), tree_wf T F arity guard t -> obs (sstate (tree_set T F arity guard t (tree_get T F t))) = obs t.
+Proof. exact ProofsMixParam.tree_roundtrip_observable. Qed.
+
+(* the hypotheses are satisfiable: Laplace + Exponential + Gamma + a nested 2 x GEV mixture (K = 4, windows 2, 1, 2, 8) *)
+Example composite_roundtrip_instance :
+  let t := PMix [CorrP.qf (-1) 1; CorrP.QNInf; CorrP.qf (-3) 2; CorrP.qf (-2) 1]
+                [PLeaf CorrP.LLaplace [CorrP.qf 0 1; CorrP.qf 1 2]; PLeaf CorrP.LExponential [CorrP.qf 3 1];
+                 PIid (PLeaf CorrP.LGamma [CorrP.qf 2 1; CorrP.qf 1 4]);
+                 PMix [CorrP.qf (-1) 1; CorrP.qf (-1) 1] [PLeaf CorrP.LGev [CorrP.qf 0 1; CorrP.qf 1 1; CorrP.qf 1 2]; PLeaf CorrP.LGev [CorrP.qf 1 1; CorrP.qf 2 1; CorrP.qf (-1) 2]]] in
+  tree_wf CorrP.qx CorrP.lfam CorrP.l_arity CorrP.l_guard t /\ length (tree_get _ _ t) = 17%nat /\
+  tree_set CorrP.qx CorrP.lfam CorrP.l_arity CorrP.l_guard t (tree_get _ _ t) = SOk t.
+Proof.
+  intro t. assert (H : tree_wf CorrP.qx CorrP.lfam CorrP.l_arity CorrP.l_guard t) by (cbv; intuition congruence).
+  split; [exact H|split; [reflexivity|]]. exact (ProofsMixParam.tree_roundtrip _ _ _ _ CorrP.l_arity_pos t H).
+Qed.
+
+(* GET AFTER SET, any vector: a component "reports its window" if, when it accepts a window, its GetParameters() is that window *)
+From ADV Require C14.ProofsMixParam2.
+Theorem mixture_get_after_set :
+  forall (T C : Type) (get : C -> list T) (set : C -> list T -> sres C) (lw : list T) (cs : list C) (p w' : list T) (cs' : list C), List.Forall (fun c => forall (q : list T) (c' : C), length q = length (get c) -> set c q = SOk c' -> get c' = q) cs -> length lw = length cs -> length (mix_get T C get lw cs) <= length p -> mix_set T C get set lw cs p = SOk (w', cs') -> mix_get T C get w' cs' = firstn (length (mix_get T C get lw cs)) p /\ length w' = length lw /\ length cs' = length cs.
+Proof. exact ProofsMixParam2.mix_set_get. Qed.
+
+Theorem product_get_after_set :
+  forall (T C : Type) (get : C -> list T) (set : C -> list T -> sres C) (cs : list C) (rest : list T) (cs' : list C), List.Forall (fun c => forall (q : list T) (c' : C), length q = length (get c) -> set c q = SOk c' -> get c' = q) cs -> prod_loop T C get set cs rest = SOk cs' -> flat_map get cs' = rest /\ length (flat_map get cs) = length rest /\ length cs' = length cs.
+Proof. exact ProofsMixParam2.prod_loop_get. Qed.
+
+(* finite nestings: if SetParameters(p) returns nil then GetParameters() is the prefix of p — no entry lost, duplicated or moved at any depth *)
+Theorem composite_get_after_set :
+  forall (T F : Type) (arity : F -> nat) (guard : F -> list T -> bool) (t : ptree T F), tree_ok T F arity t -> forall (p : list T) (t' : ptree T F), length (tree_get T F t) <= length p -> tree_set T F arity guard t p = SOk t' -> tree_get T F t' = firstn (length (tree_get T F t)) p /\ tree_ok T F arity t'.
+Proof. exact ProofsMixParam2.tree_get_after_set. Qed.
